@@ -1,3 +1,129 @@
-(* C07 - placeholder while developing *)
-From Coq Require Import List.
-From SAV.sql Require Import Val3 InList.
+(* C07 - IN / NOT IN with expanding parameters follows SQL semantics.
+   Statements only; every proof is [exact <lemma>].
+
+   Vocabulary (sql/InList.v).  CODE SIDE: [in_impl] / [text_in] / [negate] build the expression, [compile]
+   renders the template (token list with the POSTCOMPILE placeholder) in a syntactic [position] (bare,
+   CASE WHEN (..), AND / OR context with further bound parameters); [process] is
+   _process_parameters_for_postcompile on a [compiled] object, [compile_literal_stmt] is literal_binds;
+   [run_execs] runs several expansions against ONE compiled object (engine cache / render_postcompile).
+   SPEC SIDE: [in_sem] is SQL's definition of IN over row values, [or_eq] the Kleene OR of equalities,
+   [expected op x rows] = or_eq (IN) / not3 or_eq (NOT IN); [exec_sem row x] evaluates the rendered token
+   list like a database would: placeholders replaced by the bound values (positionally for qmark/format
+   dialects), then parsed with SQL precedence (OR < AND < NOT < IN, =) and evaluated in 3-valued logic. *)
+From Coq Require Import List ZArith NArith Bool.
+Import ListNotations.
+From SAV.sql Require Import Val3 InList InListSpecProofs InListMainProofs InListCacheProofs InListExtraProofs.
+
+(* SQL's IN is the Kleene OR of the equalities - any list: empty, NULLs, duplicates; rows of any arity *)
+Theorem c07_in_is_or_of_eq : forall x rows, in_sem x rows = or_eq x rows.
+Proof. exact in_is_or_of_eq. Qed.
+Print Assumptions c07_in_is_or_of_eq.
+
+(* ... and the explicit SQL text "x = r1 OR x = r2 OR .." / "NOT (..)" evaluates to it *)
+Theorem c07_explicit_or_sem : forall x rows, x <> [] -> Forall (fun r => length r = length x) rows ->
+  teval (explicit_or x rows) = EOk (or_eq x rows) /\
+  teval (explicit_not_or x rows) = EOk (not3 (or_eq x rows)).
+Proof. intros x rows Hx H. exact (conj (explicit_or_sem x rows Hx H) (explicit_not_or_sem x rows Hx H)). Qed.
+Print Assumptions c07_explicit_or_sem.
+
+(* MAIN (bound once): for every dialect style, position, consistent expression, well-formed list and
+   row, the expansion succeeds and the executed SQL has the truth value of the OR-of-equalities
+   (negated for NOT IN), in its context.  [pop] is _populate_self. *)
+Theorem c07_bound_correct : forall d p e vals row pop,
+  consistent e = true -> wf e vals = true -> empty_ok d e vals = true ->
+  exists x c', process (compile d p e) (ctx_others p) vals pop = Ok (x, c') /\
+    exec_sem row x = EOk (ctx_value p row (expected e.(ie_op) (lhs_vals row e.(ie_left)) (map value_row vals))).
+Proof. exact bound_correct. Qed.
+Print Assumptions c07_bound_correct.
+
+(* empty list: FALSE for IN, TRUE for NOT IN, also for a NULL left operand, with every dialect's
+   empty-set expression (sqlite / postgresql / mysql subqueries, default "NULL) AND (1 != 1" forms) *)
+Theorem c07_empty_set : forall d e row pop,
+  consistent e = true -> wf e [] = true -> empty_ok d e [] = true ->
+  exists x c', process (compile d PosBare e) [] [] pop = Ok (x, c') /\
+    exec_sem row x = EOk (match e.(ie_op) with OIn => TF | ONotIn => TT end).
+Proof. exact empty_set_correct. Qed.
+Print Assumptions c07_empty_set.
+
+(* the only failure for an empty list is the documented one, and it is an exception, not a wrong row set *)
+Theorem c07_empty_unsupported : forall d p e pop,
+  (empty_ok d e [] = false <->
+   (d.(d_empty_op_override) = true \/ e.(ie_bind).(bp_expand_op) = None) /\ d.(d_empty) = ENone) /\
+  (empty_ok d e [] = false -> process (compile d p e) (ctx_others p) [] pop = Raise NotImplementedError).
+Proof. intros d p e pop. exact (conj (empty_unsupported_iff d e) (empty_unsupported_raises d p e pop)). Qed.
+Print Assumptions c07_empty_unsupported.
+
+(* expressions built by in_() / not_in() / text() are consistent, ~ keeps them consistent, flips the
+   operator and therefore (by the main theorems) negates the truth value *)
+Theorem c07_negated_forms : forall e, consistent e = true ->
+  consistent (negate e) = true /\
+  (forall vals, wf (negate e) vals = wf e vals) /\
+  (forall x rows, expected (ie_op (negate e)) x rows = not3 (expected (ie_op e) x rows)).
+Proof. exact negated_forms. Qed.
+Print Assumptions c07_negated_forms.
+Theorem c07_constructors_consistent : forall l k op,
+  consistent (in_impl l k op) = true /\ consistent (text_in l op) = true.
+Proof. intros l k op. exact (conj (consistent_in_impl l k op) (consistent_text_in l op)). Qed.
+Print Assumptions c07_constructors_consistent.
+
+(* re-expansion: whatever was executed before against a Compiled object (any lists of any lengths, with or
+   without _populate_self), each expansion equals the one of the untouched object *)
+Theorem c07_cached_reexpand : forall c0 others execs xs,
+  run_execs c0 others execs = Ok xs ->
+  Forall2 (fun ex x => exists c0', process c0 others (fst ex) false = Ok (x, c0')) execs xs.
+Proof. exact cached_reexpand. Qed.
+Print Assumptions c07_cached_reexpand.
+
+(* MAIN (re-bound on a cached statement): every execution of any sequence has the prescribed value *)
+Theorem c07_rebound_correct : forall d p e execs row,
+  consistent e = true ->
+  (forall ex, In ex execs -> wf e (fst ex) = true /\ empty_ok d e (fst ex) = true) ->
+  exists xs, run_execs (compile d p e) (ctx_others p) execs = Ok xs /\
+    Forall2 (fun ex x => exec_sem row x =
+               EOk (ctx_value p row (expected e.(ie_op) (lhs_vals row e.(ie_left)) (map value_row (fst ex)))))
+            execs xs.
+Proof. exact rebound_correct. Qed.
+Print Assumptions c07_rebound_correct.
+
+(* MAIN (rendered literally), outside the two defective regions named by [literal_guard] *)
+Theorem c07_literal_correct_guarded : forall d p e vals row,
+  consistent e = true -> wf e vals = true -> empty_ok d e vals = true -> literal_guard d e vals = true ->
+  exists ts, compile_literal_stmt d p e vals = Ok ts /\
+    exec_literal row ts = EOk (ctx_value p row (expected e.(ie_op) (lhs_vals row e.(ie_left)) (map value_row vals))).
+Proof. exact literal_correct_guarded. Qed.
+Print Assumptions c07_literal_correct_guarded.
+
+(* ... and inside them the code fails: tuple_(x, y).in_([]) with literal_binds on SQLite renders
+   "(x, y) IN (VALUES SELECT 1, 1 FROM (SELECT 1, 1) WHERE 1!=1)" which is not SQL, while the bound form is
+   FALSE; tuples for an untyped operand raise AttributeError, while the bound form works *)
+Theorem c07_literal_empty_tuple_refuted :
+  exists d e row,
+    consistent e = true /\ wf e [] = true /\ empty_ok d e [] = true /\ literal_guard d e [] = false /\
+    (exists x c', process (compile d PosBare e) [] [] false = Ok (x, c') /\ exec_sem row x = EOk TF) /\
+    exists ts, compile_literal_stmt d PosBare e [] = Ok ts /\ exec_literal row ts = EErr.
+Proof. exact literal_empty_tuple_refuted_ex. Qed.
+Print Assumptions c07_literal_empty_tuple_refuted.
+Theorem c07_literal_nulltype_tuple_refuted :
+  exists d e vals row,
+    consistent e = true /\ wf e vals = true /\ literal_guard d e vals = false /\
+    (exists x c', process (compile d PosBare e) [] vals false = Ok (x, c') /\ exec_sem row x = EOk TT) /\
+    compile_literal_stmt d PosBare e vals = Raise AttributeError.
+Proof. exact literal_nulltype_tuple_refuted_ex. Qed.
+Print Assumptions c07_literal_nulltype_tuple_refuted.
+
+(* non-vacuity: hypotheses are satisfiable and the values are the interesting ones *)
+Definition ex_row : N -> sv := fun c => if N.eqb c 1 then SNull else SInt 5.
+Example c07_ex_hyps :
+  let e := negate (in_impl (LCol 1) KScalar OIn) in
+  consistent e = true /\ wf e [VScalar (SInt 1); VScalar SNull] = true /\ ie_op e = ONotIn /\
+  empty_ok default_dialect e [] = true /\ empty_ok default_dialect (text_in (LCol 1) OIn) [] = false /\
+  literal_guard default_dialect (in_impl (LTuple [1%N; 2%N]) (KTuple 2) OIn) [] = true.
+Proof. vm_compute. repeat split. Qed.
+(* x NOT IN (1, NULL) with x = 5 is UNKNOWN; x NOT IN () with x = NULL is TRUE - default dialect *)
+Example c07_ex_values :
+  (exists x c, process (compile default_dialect (PosAnd (-1) (-2)) (negate (in_impl (LCol 2) KScalar OIn)))
+                 (ctx_others (PosAnd (-1) (-2))) [VScalar (SInt 1); VScalar SNull] false = Ok (x, c) /\
+               exec_sem ex_row x = EOk TU) /\
+  (exists x c, process (compile default_dialect PosBare (negate (in_impl (LCol 1) KScalar OIn))) [] [] false = Ok (x, c) /\
+               exec_sem ex_row x = EOk TT).
+Proof. split; eexists _, _; split; vm_compute; reflexivity. Qed.
